@@ -1008,3 +1008,20 @@ pub fn api_push(s: &mut pkgsrc::summary::Summary, name: &str, v: &str) {
         "REQUIRES" => s.push_requires(v), _ => s.push_supersedes(v),
     }
 }
+/// C08: what the 23 getters (and description_as_str) return, as canonical text "VAR=value" lines in pkg_summary order - the same
+/// shape as the printed entry, but read through the accessors one by one
+pub fn summary_getters(s: &pkgsrc::summary::Summary) -> String {
+    let mut o = String::new();
+    let one = |o: &mut String, k: &str, v: Option<&str>| if let Some(v) = v { o.push_str(&format!("{}={}\n", k, v)); };
+    let many = |o: &mut String, k: &str, v: Option<&[String]>| if let Some(v) = v { for x in v { o.push_str(&format!("{}={}\n", k, x)); } };
+    let int = |o: &mut String, k: &str, v: Option<i64>| if let Some(v) = v { o.push_str(&format!("{}={}\n", k, v)); };
+    one(&mut o, "BUILD_DATE", s.build_date()); one(&mut o, "CATEGORIES", s.categories()); one(&mut o, "COMMENT", s.comment());
+    many(&mut o, "CONFLICTS", s.conflicts()); many(&mut o, "DEPENDS", s.depends()); many(&mut o, "DESCRIPTION", s.description());
+    one(&mut o, "FILE_CKSUM", s.file_cksum()); one(&mut o, "FILE_NAME", s.file_name()); int(&mut o, "FILE_SIZE", s.file_size());
+    one(&mut o, "HOMEPAGE", s.homepage()); one(&mut o, "LICENSE", s.license()); one(&mut o, "MACHINE_ARCH", s.machine_arch());
+    one(&mut o, "OPSYS", s.opsys()); one(&mut o, "OS_VERSION", s.os_version()); one(&mut o, "PKG_OPTIONS", s.pkg_options());
+    one(&mut o, "PKGNAME", s.pkgname()); one(&mut o, "PKGPATH", s.pkgpath()); one(&mut o, "PKGTOOLS_VERSION", s.pkgtools_version());
+    one(&mut o, "PREV_PKGPATH", s.prev_pkgpath()); many(&mut o, "PROVIDES", s.provides()); many(&mut o, "REQUIRES", s.requires());
+    int(&mut o, "SIZE_PKG", s.size_pkg()); many(&mut o, "SUPERSEDES", s.supersedes());
+    o
+}
